@@ -926,6 +926,20 @@ func runPar(tier string, seed int64, model string, replay string) *corr.Result {
 				jobs = append(jobs, job{sc: sc, request: fmt.Sprintf("%s %s", sc.text, randSched(r))})
 			}
 		}
+		// ---- large worker counts (the property quantifies over all n): small item graphs, a few seeded schedules each
+		nLarge := 2
+		if thorough {
+			nLarge = 12
+		}
+		for _, n := range []int{64, 100, 256, 257, 300, 1000} {
+			for _, g := range [][3]string{{"empty", "-", "-"}, {"single", "0", "-"}, {"chain2", "0", "0>1;1>2"}, {"fan2", "0", "0>1,2"},
+				{"diamond", "0", "0>1,2;1>3;2>3"}, {"five", "0,1", "0>2;1>2;2>3,4;4>0"}} {
+				sc := workScenario("large-n", n, g[1], g[2])
+				for i := 0; i < nLarge; i++ {
+					jobs = append(jobs, job{sc: sc, request: fmt.Sprintf("%s %s", sc.text, randSched(r))})
+				}
+			}
+		}
 		// ---- random scenarios: n ≤ 8, ≤ 30 items; 2–4 goroutines, 1–2 keys
 		for i := 0; i < nRandW; i++ {
 			sc := randWork(r, 8, 30)
@@ -1053,7 +1067,7 @@ func runPar(tier string, seed int64, model string, replay string) *corr.Result {
 					nontrivial++
 				}
 				res.Distribution[jb.sc.kind+":"+strings.TrimSuffix(jb.sc.label, "-rnd")]++
-				res.Distribution[fmt.Sprintf("%s:tasks=%d", jb.sc.kind, min(a.tasks, 8))]++
+				res.Distribution[fmt.Sprintf("%s:tasks=%s", jb.sc.kind, taskBucket(a.tasks))]++
 				res.Distribution[fmt.Sprintf("%s:events<%d", jb.sc.kind, (a.events/50+1)*50)]++
 				res.Distribution[jb.sc.kind+":end="+a.end]++
 			}
@@ -1261,4 +1275,17 @@ func smokeCache(g, keys int) string {
 		}
 	}
 	return ""
+}
+
+func taskBucket(n int) string {
+	switch {
+	case n <= 8:
+		return strconv.Itoa(n)
+	case n < 64:
+		return "9..63"
+	case n <= 256:
+		return "64..256"
+	default:
+		return ">256"
+	}
 }
